@@ -19,10 +19,47 @@ pub struct VHDLParser {
     pub standard: VHDLStandard,
 }
 
+/// The maximum depth of constructs that are nested into each other, such as
+/// parenthesized expressions, function calls, statements within statements
+/// or subprogram bodies within declarative parts.
+///
+/// The parser is a recursive descent parser, its call stack grows with the nesting depth
+/// of the input and so does the call stack of everything that traverses the AST afterwards.
+/// Input that is nested deeper is a syntax error, it would otherwise overflow the stack
+/// which aborts the process.
+///
+/// Each level needs at most 5 KiB of stack in an optimized build. The limit is thus reached
+/// within 1.3 MiB, which fits the 2 MiB stack of the worker threads that files are parsed on.
+/// The deepest nesting within the IEEE libraries is 12.
+const MAX_NESTING_DEPTH: usize = 256;
+
 pub(crate) struct ParsingContext<'a> {
     pub stream: &'a TokenStream<'a>,
     pub diagnostics: &'a mut dyn DiagnosticHandler,
     pub standard: VHDLStandard,
+    /// The number of nested constructs that are being parsed, see [ParsingContext::nested]
+    pub depth: usize,
+}
+
+impl ParsingContext<'_> {
+    /// Parse a construct that may directly or indirectly contain itself.
+    /// Every cycle of parse functions that call each other must pass through here.
+    ///
+    /// Returns a syntax error at the current token when the construct is nested
+    /// deeper than [MAX_NESTING_DEPTH] instead of overflowing the stack.
+    pub fn nested<T>(
+        &mut self,
+        parse_fun: impl FnOnce(&mut Self) -> DiagnosticResult<T>,
+    ) -> DiagnosticResult<T> {
+        if self.depth >= MAX_NESTING_DEPTH {
+            let token = self.stream.peek_expect()?;
+            return Err(Diagnostic::syntax_error(&token.pos, "Nesting too deep"));
+        }
+        self.depth += 1;
+        let result = parse_fun(self);
+        self.depth -= 1;
+        result
+    }
 }
 
 impl TokenAccess for ParsingContext<'_> {
@@ -66,6 +103,7 @@ impl VHDLParser {
             stream: &stream,
             diagnostics,
             standard: self.standard,
+            depth: 0,
         };
 
         match parse_design_file(&mut ctx) {
